@@ -2,7 +2,7 @@
 from bounded import harness, decode
 from bounded.corpus import corpus, bound_text
 
-FAMILIES = ['dvmet']
+FAMILIES = ['dvmet', 'mix']
 
 
 def member(desc, tier, seed):
